@@ -77,6 +77,7 @@ class CallMixin:
             for K in self.classobj_cands:
                 if self.implied(z3.And(Val.is_ref(obj), Val.r(obj) < 0, self.sub_term(Val.r(obj), K))):
                     self.hint_classobj[smt.simp(obj).get_id()] = K
+                    self.not_classobj.discard(smt.simp(obj).get_id())
                     return self.get_attr(obj, name, node)
         c = self.require_class(obj, f'receiver of .{name}')
         if not c.builtin and c.lookup(name) is None and name not in self.declared_attrs(c):
@@ -97,8 +98,12 @@ class CallMixin:
 
     def feasible_is_classobj(self, obj) -> bool:
         """cheap syntactic filter: obj is not already known to be an ordinary instance"""
-        if self.known_cls.get(smt.simp(obj).get_id()) is not None or self.hint_cls.get(smt.simp(obj).get_id()) is not None:
+        if self.class_of(obj) is not None:
             return False
+        tid = smt.simp(obj).get_id()
+        if tid in self.not_classobj:
+            return False                # asked before on this path (a lost hint at worst)
+        self.not_classobj.add(tid)
         sid = smt.static_id(obj)
         return sid is None
 
